@@ -314,7 +314,7 @@ theorem writeDb_other_untouched (now : Nat) (q : DbReq) (src dst d : Files)
 
 open Verif.C08 (Val normEmpty) in
 /-- one stored record reads back (raw interface) as the cells it was printed from, an empty cell
-as `None` — uses C08 `split_join` (no value can create, merge or shift columns). -/
+as `None` — this is C08's `split_join` (no value can create, merge or shift columns). -/
 theorem decode_encode (fields : List Field) (vals : List Val) (l : Line)
     (h : encodeLine fields vals = .ok l) :
     decodeRaw l = .ok ((cellsOf fields vals).map (fun s => normEmpty (some s))) := by
@@ -327,7 +327,7 @@ theorem decode_encode (fields : List Field) (vals : List Val) (l : Line)
       | nil => simp at hlen
       | cons v vs => simp [cellsOf]
   unfold decodeRaw
-  rw [(C08.split_join _ hne').2]
+  rw [split_join_nl _ hne']
   simp [List.map_map, Function.comp_def]
 
 open Verif.C08 (Val normEmpty) in
